@@ -31,6 +31,7 @@ type Run struct {
 	Timeout time.Duration
 	Seed    int
 	mu      sync.Mutex
+	genMu   sync.Mutex
 	cache   map[*Contract]*FuncReport
 	Workers int
 }
@@ -58,7 +59,9 @@ func (r *Run) VerifyContract(con *Contract) *FuncReport {
 		rep.FuncResult = &FuncResult{Func: con.PkgPath + "::" + con.Func, Contract: con}
 		rep.Missing = true
 	} else {
+		r.genMu.Lock() // generation shares tables in Gen; solving runs in parallel
 		rep.FuncResult = r.G.Generate(fn, con)
+		r.genMu.Unlock()
 		rep.Results = r.discharge(rep.FuncResult)
 	}
 	rep.Wall = time.Since(t0).Seconds()
@@ -100,10 +103,15 @@ func (r *Run) discharge(fr *FuncResult) []*OblResult {
 	todo = append(todo, covers...)
 	ParallelDo(len(todo), r.Workers, func(i int) {
 		o := todo[i]
-		v := Decide(o.Query(true), r.Dir, fileTag(o.Name), r.Timeout, r.Seed)
-		ok := v.Status == "unsat"
+		var v Verdict
+		ok := false
 		if o.Cover {
-			ok = v.Status != "unsat" // unsat cover = vacuous
+			// a cover is expected to be satisfiable; only a refutation (unsat) is a vacuity alarm
+			v = runSolver(Solvers[0], destring(o.Query(false)), r.Dir, fileTag(o.Name), 2*time.Second, r.Seed)
+			ok = v.Status != "unsat"
+		} else {
+			v = Decide(o.Query(true), r.Dir, fileTag(o.Name), r.Timeout, r.Seed)
+			ok = v.Status == "unsat"
 		}
 		res[idx[o]] = &OblResult{Obl: o, Verdict: v, OK: ok}
 	})
